@@ -13,19 +13,19 @@ CHECKS = {
          "All reads of all actors at all four levels after every step of seeded histories (up to 5 open transactions, collector passes in between) equal the model.", "trusted: reference model (RU accepts both datings of a committed value)", "3/C02"),
  "C03": ("exploration", "differential runtime monitoring: commit-focused histories, Commit/Rollback classes and all-key probes vs reference model",
          "Both directions of 'fails iff write-write conflict' and all-or-nothing visibility are compared with the model on every commit/rollback of seeded histories.", "trusted: reference model", "3/C03"),
- "C05": ("exploration", "differential runtime monitoring across Close/Open in four process configurations (same process, decoy database first, two interleaved databases, process per segment)",
+ "C05": ("exploration", "differential runtime monitoring across Close/Open in four process configurations (same process, decoy database first, two interleaved databases, process per segment), histories with more records than one iterator batch, long / non-ASCII / non-UTF-8 keys",
          "State after every reopen and after overwrites following a reopen equals the model in all four process configurations.", "trusted: reference model", "3/C05"),
- "C09": ("exploration", "differential runtime monitoring: the same history re-run with the collector inserted at every position; all probes must equal the collector-free model",
+ "C09": ("exploration", "differential runtime monitoring: the same history re-run with the collector inserted at every position (probing order varied per variant); all probes must equal the collector-free model",
          "For every base history the collector (and cleaner drain) is inserted at every position; no read of any actor changes, open readers read to the end.", "trusted: reference model; quiescence barrier", "3/C09"),
  "C11": ("exploration", "differential runtime monitoring through the real gRPC server and client vs the same reference model, exhaustive error-mapping round trips over a generated wrapping family, and inline-vs-gRPC comparison of server-side rejections (empty key, injected no-space) for contents from 0 bytes to 4 MiB",
          "The gRPC client is compared with the model the inline client is compared with (same histories), and every wire sentinel survives Error->ClientError under all generated wrappings.", "trusted: reference model; loopback TCP", "3/C11"),
- "C13": ("exploration", "differential runtime monitoring: late operations through ended / never-begun transaction handles (inline and gRPC), probes by all actors and after reopen, vs reference model; plus a concurrent role (other goroutines read through a transaction while it ends; reads issued afterwards must fail)",
+ "C13": ("exploration", "differential runtime monitoring: late operations through ended / never-begun transaction handles (inline and gRPC; never-begun ones also under names that are not UUID-shaped), probes by all actors and after reopen, vs reference model; plus a concurrent role (other goroutines read through a transaction while it ends; reads issued afterwards must fail)",
          "Every late call class and every probe after it equals the model; late writes being accepted is a recorded known finding, every other deviation is reported.", "trusted: reference model", "3/C13"),
- "C18": ("exploration", "runtime comparison of the real per-key version list with a linear-scan specification: exhaustive over all subsets of 12 versions x all points x all horizons, plus seeded long interleavings",
+ "C18": ("exploration", "runtime comparison of the real per-key version list with a linear-scan specification: exhaustive over all subsets of 12 versions x all points x all horizons, plus seeded long interleavings; plus a database-level role: content files left on disk after a collector pass with a transaction open since the horizon must be exactly the versions without a successor at or before the horizon",
          "Exhaustive for lists drawn from 12 sequence numbers (every subset, every snapshot point, every horizon), seeded for long lists.", "trusted: linear-scan specification", "3/C18"),
  "C19": ("exploration", "runtime comparison of the real record repository with an independent codec, golden vectors and a golden Badger directory; arbitrary-bytes decoding with panic capture",
          "Encoded bytes equal the documented layout, decoding inverts it, golden data written earlier still decodes, arbitrary bytes never panic and short records are rejected.", "trusted: golden files under /verif/golden", "3/C19"),
- "C20": ("exploration", "runtime enumeration of configuration-source combinations (file x environment per setting, single + pairwise + seeded) against a model of the documented precedence; Valid() table; defaults-after-open",
+ "C20": ("exploration", "runtime enumeration of configuration-source combinations (file x environment per setting, single + pairwise + seeded) against a model of the documented precedence; other spellings of numeric/duration environment values; Valid() table; defaults-after-open",
          "Every combination run agrees with the precedence model; malformed values in effect are errors; Valid() table complete.", "trusted: model of documented defaults", "3/C20"),
 }
 
